@@ -157,6 +157,37 @@ func c06Case(m *Model, v *Verdict, rng *RNG, et int32, l int) {
 	bit := uint(rng.Intn(7) + 1)
 	k2[rng.Intn(len(k2))] ^= 1 << bit
 	check("key-bitflip", k2, usage, ct, true, true)
+	// des3: a body that ends in zero octets with those octets removed (what padding would restore must not
+	// be accepted in its place); needs a ciphertext whose body happens to end in 0x00
+	if et == 16 && (l%4 == 0 || Thorough()) {
+		for try := 0; try < 4000; try++ {
+			c2, e2, p2 := goEncrypt(et, key, pt, usage)
+			if e2 != nil || p2 != "" || len(c2) < 21 {
+				break
+			}
+			body := len(c2) - 20
+			if c2[body-1] != 0 {
+				continue
+			}
+			z := 1
+			for z < 7 && c2[body-1-z] == 0 {
+				z++
+			}
+			for k := 1; k <= z; k++ {
+				short := append(append([]byte{}, c2[:body-k]...), c2[body:]...)
+				check("des3-trailing-zero-removed", key, usage, short, true, true)
+			}
+			break
+		}
+	}
+	// keys of another length that begin with, or are the beginning of, the right key (a zero octet appended
+	// does not change what HMAC computes: the length itself has to be checked)
+	check("key-other-length", append(append([]byte{}, key...), 0), usage, ct, false, true)
+	check("key-other-length", append(append([]byte{}, key...), 0, 0, 0, 0, 0, 0, 0, 0), usage, ct, false, true)
+	check("key-other-length", append(append([]byte{}, key...), byte(1+rng.Intn(255))), usage, ct, false, true)
+	check("key-other-length", key[:len(key)-1], usage, ct, false, true)
+	check("key-other-length", append(append([]byte{}, key...), key...), usage, ct, false, true)
+	check("key-other-length", nil, usage, ct, false, true)
 	// the same key buffer used and then changed in place: what is decided depends on the key bytes at the
 	// time of the call, not on what the buffer held at an earlier call
 	kb := append([]byte{}, key...)
